@@ -158,6 +158,16 @@ fn check_config(msg: &RMsg, ts: (u32, u32), twist: u8) -> CheckResult {
     if with != want {
         return Err(viol!("add-storage-header", "add_storage_header(Some({:?})) gives {} but expected {}", ts, hex_short(&with[..with.len().min(40)]), hex_short(&want[..want.len().min(40)])));
     }
+    // the same on the message as built (it may already carry a storage header: that one is replaced)
+    let restamped = guard(|| m.clone().add_storage_header(Some(DltTimeStamp { seconds: ts.0, microseconds: ts.1 })).as_bytes())
+        .map_err(|p| Violation::from_panic("add_storage_header(Some) on a message with storage header", &p))?;
+    if restamped != want {
+        return Err(viol!(
+            "add-storage-header:restamp",
+            "add_storage_header(Some({:?})) on a message that {} gives {} but expected {}",
+            ts, if m.storage_header.is_some() { "already carries a storage header" } else { "has none" }, hex_short(&restamped[..restamped.len().min(40)]), hex_short(&want[..want.len().min(40)])
+        ));
+    }
     let now = guard(|| plain.clone().add_storage_header(None).as_bytes()).map_err(|p| Violation::from_panic("add_storage_header(None)", &p))?;
     let want_tail = &want[12..];
     if now.len() != plain_bytes.len() + 16 || &now[..4] != b"DLT\x01" || &now[12..] != want_tail {
